@@ -107,12 +107,18 @@ func baseGetFEnv(L *LState) int {
 
 	if number, ok := value.(LNumber); ok {
 		level := int(float64(number))
+		if level < 0 {
+			L.ArgError(1, "level must be non-negative")
+		}
 		if level <= 0 {
 			L.Push(L.Env)
 		} else {
 			cf := L.currentFrame
 			for i := 0; i < level && cf != nil; i++ {
 				cf = cf.Parent
+			}
+			if cf == nil {
+				L.ArgError(1, "invalid level")
 			}
 			if cf == nil || cf.Fn.IsG {
 				L.Push(L.G.Global)
@@ -369,6 +375,9 @@ func baseSetFEnv(L *LState) int {
 
 	if number, ok := value.(LNumber); ok {
 		level := int(float64(number))
+		if level < 0 {
+			L.ArgError(1, "level must be non-negative")
+		}
 		if level <= 0 {
 			L.Env = env
 			return 0
@@ -377,6 +386,9 @@ func baseSetFEnv(L *LState) int {
 		cf := L.currentFrame
 		for i := 0; i < level && cf != nil; i++ {
 			cf = cf.Parent
+		}
+		if cf == nil {
+			L.ArgError(1, "invalid level")
 		}
 		if cf == nil || cf.Fn.IsG {
 			L.RaiseError("cannot change the environment of given object")
